@@ -20,12 +20,16 @@ CLAIMED = {
          "static analysis: path-sensitive slot-coverage/provenance abstract interpretation over go/ssa", "DESIGN.md §5 C06"),
  "C07": ("Sound static decision: continue mode has no early loop exit; exactly one exec chain per item unless cancelled; per-item chain obeys the C02 rules; the per-item path's write effects are its own slot and boolean constants to the mutex-guarded flag only; failed slots hold the last attempt's/fallback's error.",
          "static analysis: path-sensitive per-item typestate + effect analysis over go/ssa", "DESIGN.md §5 C07"),
+ "C08": ("Sound static decision of the structural cause of the bound and of its usability: exactly max(1,workers) worker goroutines are started (symbolic trip count) and nothing else in the package starts goroutines; each worker runs one received task at a time synchronously; item executions happen only inside submitted tasks on a pool sized by the node's configured concurrency, and in index order without a pool when concurrency<=0. Scheduling itself is not decided.",
+         "static analysis: trip-count analysis of the spawn loop + path-sensitive typestate of worker and batch dispatch over go/ssa", "DESIGN.md §5 C08"),
  "C09": ("Sound static decision: stop mode halts (sequential: no exec after a stored failure; concurrent: flag read under the mutex gates exec, failing task sets it under the mutex, mutex released on all task paths) and slot coverage: every slot is assigned an item outcome or an error on every path reaching post.",
          "static analysis: path-sensitive slot-coverage + lock-held typestate over go/ssa", "DESIGN.md §5 C09"),
  "C10": ("Sound static decision that a flow used as a node threads the parent's store and context to every child, reports the last child's action, is run by Run like any node (no type test for *Flow), and has the default one-attempt budget; with C01/C03/C04 this gives the flattening argument by induction on nesting.",
          "static analysis: path-sensitive value-provenance abstract interpretation over go/ssa", "DESIGN.md §5 C10"),
  "C11": ("Sound static decision of the structural causes: per-item/per-attempt context observation, interruptible per-item wait, every unexecuted item's slot is an error at post, mutex released on every task path and Wait before post (no hang). Wall-clock promptness and which worker holds which item are not decided.",
          "static analysis: path-sensitive context-observation typestate + slot coverage over go/ssa", "DESIGN.md §5 C11"),
+ "C12": ("Sound static decision of the pool's typestate: Add(1) dominates a blocking send of a wrapper that runs the task exactly once and signals Done exactly once afterwards on every exit; only workers receive and each runs a received task once; Wait reaches wg.Wait; Close closes a channel that makes every worker's blocking point return; nobody else touches the pool's fields. Memory visibility is the WaitGroup contract.",
+         "static analysis: path-sensitive typestate over sync/channel events of the pool's functions + who-may-touch scan", "DESIGN.md §5 C12"),
  "C13": ("Sound static decision of a sufficient condition for linearizability and race freedom of the store: every access to the map happens inside exactly one critical section of the store's own mutex per operation (write-locked for mutations), balanced on all paths, no nested store calls under the lock, the internal map never escapes. Linearization points lie inside the section; Merge/Clear are single write sections.",
          "static analysis: path-sensitive lockset / critical-section typestate over go/ssa", "DESIGN.md §5 C13"),
  "C14": ("Sound static decision that each direct method's map-effect summary equals its map operation (Set/Get/Has/Delete/Len/Clear/Merge/Keys/GetAll), that the map field only ever holds maps made by the store itself, and that snapshots are containers made in the call and not retained; by induction over operation sequences the store equals the model map.",
